@@ -192,16 +192,16 @@ func vObsWithLookup(h *verifh.H, hub *VHub, g *mGraph, name string) (string, str
 // datasets — listing, feed, relationship queries AND entity lookups, scoped
 // and unscoped — answers as one of the two serial orders would.
 func VerifC05TxnOrder(h *verifh.H) {
-	hs := vNewHistory(h, "a", "b")
+	hs := vNewHistory(h, "a", "b", "c")
 	pre := mClone(hs.g)
 	ta := &mVersion{ID: "ns0:e1", Props: map[string]string{"ns0:v": "t"}, Refs: map[string][]string{}}
 	tb := &mVersion{ID: "ns0:e1", Props: map[string]string{"ns0:v": "t"}, Refs: map[string][]string{"ns0:p1": {"ns0:e3"}}}
 	wv := &mVersion{ID: "ns0:e1", Props: map[string]string{"ns0:v": "w"}, Refs: map[string][]string{"ns0:p1": {"ns0:e2"}}}
-	other := h.Choice("other", 3)
-	otherDS := []string{"b", "a", "b"}[other]
-	dsA, dsB := hs.dss["a"], hs.dss["b"]
+	other := h.Choice("other", 4)
+	otherDS := []string{"b", "a", "b", "b"}[other]
+	dsA, dsB, dsC := hs.dss["a"], hs.dss["b"], hs.dss["c"]
 	h.SymbolicSched(h.Param("preemptions", 1))
-	var e1, e2 error
+	var e1, e2, rejected error
 	h.Go(func() {
 		e1 = hs.hub.Store.ExecuteTransaction(&Transaction{DatasetEntities: map[string][]*Entity{"a": {mkEntity(ta)}, "b": {mkEntity(tb)}}})
 	})
@@ -213,16 +213,28 @@ func VerifC05TxnOrder(h *verifh.H) {
 			e2 = dsA.StoreEntities([]*Entity{mkEntity(wv)})
 		case 2:
 			e2 = hs.hub.Store.ExecuteTransaction(&Transaction{DatasetEntities: map[string][]*Entity{"b": {mkEntity(wv)}}})
+		case 3:
+			// a batch the hub rejects (a null reference): it must have no effect at all, in
+			// particular not on what the concurrent, acknowledged transaction wrote
+			bad := NewEntity("ns0:bad", 0)
+			bad.References["ns0:p1"] = nil
+			rejected = dsC.StoreEntities([]*Entity{mkEntity(wv), bad}) // a dataset the transaction does not lock
 		}
 	})
 	h.Assert(h.Wait(), "both clients complete")
-	h.Assert(e1 == nil && e2 == nil, "both writes are acknowledged")
+	if other == 3 {
+		h.Assert(e1 == nil && rejected != nil, "the transaction is acknowledged, the malformed batch rejected")
+	} else {
+		h.Assert(e1 == nil && e2 == nil, "both writes are acknowledged")
+	}
 	sTW := mClone(pre) // transaction first, then the other write
 	sTW.write("a", []*mVersion{ta})
 	sTW.write("b", []*mVersion{tb})
-	sTW.write(otherDS, []*mVersion{wv})
 	sWT := mClone(pre)
-	sWT.write(otherDS, []*mVersion{wv})
+	if other != 3 { // a rejected batch writes nothing
+		sTW.write(otherDS, []*mVersion{wv})
+		sWT.write(otherDS, []*mVersion{wv})
+	}
 	sWT.write("a", []*mVersion{ta})
 	sWT.write("b", []*mVersion{tb})
 	match := func(g *mGraph) bool {
